@@ -150,6 +150,7 @@ impl Module {
 
         let mut local_functions = Vec::new();
         let mut debug_sections = Vec::new();
+        let mut name_sections = Vec::new();
 
         let mut parser = Parser::new(0);
         parser.set_features(wasm_features);
@@ -244,10 +245,10 @@ impl Module {
                             .map_err(anyhow::Error::from)
                             .and_then(|s| ret.parse_producers_section(s)),
                             "name" => {
-                                let name_section_reader = wasmparser::NameSectionReader::new(
-                                    BinaryReader::new(s.data(), s.data_offset(), wasm_features),
-                                );
-                                ret.parse_name_section(name_section_reader, &indices)
+                                // Interpreted once the whole module is parsed: local names can
+                                // only be resolved after `parse_local_functions` created the locals.
+                                name_sections.push(s);
+                                continue;
                             }
                             name => {
                                 log::debug!("parsing custom section `{}`", name);
@@ -308,6 +309,17 @@ impl Module {
             config.on_instr_loc.as_ref().map(|f| f.as_ref()),
         )
         .context("failed to parse code section")?;
+
+        for s in name_sections {
+            let name_section_reader = wasmparser::NameSectionReader::new(BinaryReader::new(
+                s.data(),
+                s.data_offset(),
+                wasm_features,
+            ));
+            if let Err(e) = ret.parse_name_section(name_section_reader, &indices) {
+                log::warn!("failed to parse `{}` custom section {}", s.name(), e);
+            }
+        }
 
         ret.parse_debug_sections(debug_sections)
             .context("failed to parse debug data section")?;
